@@ -21,39 +21,53 @@ Section DapStep.
   (* execute_instruction *)
   Definition exec_in (i : Z) : Z := if finT i then i else i + 1.
 
-  (* the loop of step_over:  loop { result = execute_instruction(); if pc == wait_until_pc { return }; if result != Running { return } } *)
-  Fixpoint over_loop (fuel : nat) (target : Z) (i : Z) : option Z :=
+  (* TestRunner::run_until_return (shared by step_over and step_out; nested calls are counted):
+       loop { opcode = ram[pc]; if execute_instruction() != Running { return };
+              match opcode { JSR => nested += 1, RTS if nested == 0 => return, RTS => nested -= 1, _ => {} } } *)
+  Fixpoint run_until_return (fuel : nat) (nested : Z) (i : Z) : option Z :=
+    match fuel with
+    | O => None
+    | S f =>
+        if finT i then Some i
+        else if is_jsr i then run_until_return f (nested + 1) (i + 1)
+        else if is_rts i then (if nested =? 0 then Some (i + 1) else run_until_return f (nested - 1) (i + 1))
+        else run_until_return f nested (i + 1)
+    end.
+
+  (* step_over: on JSR execute it, then run until the subroutine returns; otherwise execute_instruction *)
+  Definition step_over (fuel : nat) (i : Z) : option Z :=
+    if is_jsr i then run_until_return fuel 0 (i + 1) else Some (exec_in i).
+
+  (* TestRunner::call_depth before instruction n: execute_instruction counts JSR up and RTS down (saturating) *)
+  Fixpoint call_depth (n : nat) : Z :=
+    match n with
+    | O => 0
+    | S k => let d := call_depth k in
+             if is_jsr (Z.of_nat k) then d + 1 else if is_rts (Z.of_nat k) then Z.max 0 (d - 1) else d
+    end.
+
+  (* step_out: nothing to step out to when no call is open *)
+  Definition step_out (fuel : nat) (i : Z) : option Z :=
+    if call_depth (Z.to_nat i) =? 0 then Some i else run_until_return fuel 0 i.
+
+  (* ---- the runner as pinned (before fixes 7e8ab84 and the two that followed) ----
+     step_over:  wait_until_pc = pc + 3; loop { result = execute_instruction(); if pc == wait_until_pc { return };
+                                                if result != Running { return } }
+     step_out:   if sp > 253 { return }; will_return_to = 1 + ram[$100+sp+1] + 256*ram[$100+sp+2];
+                 loop { if pc == will_return_to { return }; if execute_instruction() != Running { return } } *)
+  Fixpoint over_loop_pinned (fuel : nat) (target : Z) (i : Z) : option Z :=
     match fuel with
     | O => None
     | S f =>
         let j := exec_in i in
         if pcT j =? target then Some j
         else if finT i then Some j
-        else over_loop f target j
+        else over_loop_pinned f target j
     end.
 
-  Definition step_over (fuel : nat) (i : Z) : option Z :=
-    if is_jsr i then over_loop fuel (pcT i + 3) i else Some (exec_in i).
+  Definition step_over_pinned (fuel : nat) (i : Z) : option Z :=
+    if is_jsr i then over_loop_pinned fuel (pcT i + 3) i else Some (exec_in i).
 
-  (* step_out (after fix: nested calls are counted):
-       loop { opcode = ram[pc]; if execute_instruction() != Running { return };
-              match opcode { JSR => nested += 1, RTS if nested == 0 => return, RTS => nested -= 1, _ => {} } } *)
-  Fixpoint out_loop (fuel : nat) (nested : Z) (i : Z) : option Z :=
-    match fuel with
-    | O => None
-    | S f =>
-        if finT i then Some i
-        else if is_jsr i then out_loop f (nested + 1) (i + 1)
-        else if is_rts i then (if nested =? 0 then Some (i + 1) else out_loop f (nested - 1) (i + 1))
-        else out_loop f nested (i + 1)
-    end.
-
-  Definition step_out (fuel : nat) (i : Z) : option Z :=
-    if spT i >? 253 then Some i else out_loop fuel 0 i.
-
-  (* step_out as pinned (before the fix):
-       will_return_to = 1 + ram[$100+sp+1] + 256*ram[$100+sp+2];
-       loop { if pc == will_return_to { return }; if execute_instruction() != Running { return } } *)
   Fixpoint out_loop_pinned (fuel : nat) (target : Z) (i : Z) : option Z :=
     match fuel with
     | O => None
@@ -74,4 +88,13 @@ Section DapStep.
 
   (* instruction k jumps to itself *)
   Definition Known_breakpoint_self_loop (k : Z) : bool := pcT (k + 1) =? pcT k.
+
+  (* the return address of the call at index i is passed before the call has returned at index j (recursion through the
+     same call site, or a jump to the instruction after the call from inside it) *)
+  Fixpoint passes_return_address (n : nat) (i : Z) (k : Z) : bool :=
+    match n with
+    | O => false
+    | S m => (pcT k =? pcT i + 3) || passes_return_address m i (k + 1)
+    end.
+  Definition Known_next_reenters_call_site (i j : Z) : bool := passes_return_address (Z.to_nat (j - i - 1)) i (i + 1).
 End DapStep.
